@@ -1,5 +1,6 @@
 import Olla.Driver.Util
 import Olla.Model.Handler
+import Olla.Model.Routing
 import Olla.Spec.C05
 
 namespace Olla.Driver.C05
@@ -107,11 +108,20 @@ def handle (j : Json) : IO Unit := do
   let anthropicRoute := routeS == "anthropic" || routeS == "anthropic-pt"
   -- model inputs
   let all := List.range n
-  let eps := if fault == "no-endpoints" || fault == "unknown-model" then [] else all
+  -- model routing (C09's decision table, as wired): which endpoints the handler is left with, or the rejection status
+  let strategy := jstr (jget sc "strategy")
+  let (typ, fb) := match strategy.splitOn "-" with
+    | [t, f] => (t, f)
+    | _ => ("strict", "compatible_only")
+  let healthy := if fault == "no-endpoints" then [] else all
+  let listers := if fault == "unknown-model" then [] else all
+  let routed := Olla.Model.Routing.effectiveRoute Olla.Model.Routing.active typ fb (typ == "discovery") healthy listers
+  let eps := routed.eps
   let route : Route := if routeS == "proxy" then .proxy else if routeS == "provider" then .provider else .anthropic
   let mode : Mode := if routeS == "anthropic-pt" then .passthrough eps else .translate
   let problem : Option ReqProblem := if fault == "bad-request" && anthropicRoute then some .invalid else none
-  let rejected : Option Nat := if fault == "unknown-model" then some 404 else if fault == "no-endpoints" then some 503 else none
+  let rejected : Option Nat :=
+    if routed.decision.action == Olla.Gen.Routing.actionRejected then some routed.decision.status else none
   let rq : Req := { route := route, stream := stream, mode := mode, problem := problem, rejected := rejected }
   let resp : Resp := { status := if bStatus == 0 then 200 else bStatus, headers := if sentCT == "" then [] else [("Content-Type", sentCT)], body := sent }
   let kindAt (i : Nat) : String := if fault == "mixed" then (["refuse", "reset0", "close0"].getD (i % 3) "refuse") else fault
@@ -146,10 +156,7 @@ def handle (j : Json) : IO Unit := do
   let baseOffline := if fault == "no-endpoints" then all.map (fun i => String.singleton (Char.ofNat ('A'.toNat + i))) else []
   let mMode := match beforeProxy active rq eps, mode with | .inr _, .passthrough _ => "passthrough" | _, _ => ""
   let ctAgree := if fromBackend out.body then ct == sentCT else seen.ctype == out.ctype
-  -- scenarios under a non-default routing strategy are judged by the property's clauses only (the handler model is the
-  -- default strategy's)
-  let strategy := jstr (jget sc "strategy")
-  let agree := strategy != "" || (cErr != "timeout" && seen.status == out.status && seen.body == out.body && ctAgree &&
+  let agree := (cErr != "timeout" && seen.status == out.status && seen.body == out.body && ctAgree &&
     contacted == mContacted && jstr (jget impl "mode") == mMode &&
     offline.all (fun x => mOffline.contains x || baseOffline.contains x) && mOffline.all (offline.contains ·))
   -- the property on the implementation's own observations
